@@ -459,6 +459,17 @@ func chainMods(n int, p purposeKind) (viol []chainMod, benign []chainMod) {
 				}
 			})
 		}
+		// a supplied signing time is a signing time, also when it is the zero instant (in any location) or far from every validity
+		for _, zt := range []struct {
+			n string
+			t time.Time
+		}{{"zero-instant", time.Time{}}, {"zero-instant-in-another-zone", time.Time{}.In(time.FixedZone("", 3600))}, {"unix-epoch", time.Unix(0, 0)}, {"year-9999", time.Date(9999, 12, 31, 23, 59, 59, 0, time.UTC)}} {
+			zt := zt
+			v("time-supplied-is-the-"+zt.n, -2, func(d *chainDesc) {
+				t := zt.t
+				d.signingTime, d.timeViolated = &t, true
+			})
+		}
 		b("time-now", -2, func(d *chainDesc) {
 			if d.signingTime == nil {
 				t := pki.Now
